@@ -34,6 +34,18 @@ check("C18", "exploration",
       "bounded-exhaustive enumeration of all operand tuples on the real code (explicit reference model)",
       "DESIGN.md §3/C18")
 
+check("C02", "exploration",
+      "Every abstract expression tree of the enumeration (all constructors; all parent/slot/child triples; in the thorough "
+      "tier all depth-3 chains and all binary parents with two compound operands) is rendered with full and with "
+      "table-minimal parentheses and parsed by the real parser as a bare expression and inside an initialiser, a guard, an "
+      "update, a statement and a query; the tree handed to clients must equal the abstract tree (kinds, operand order, "
+      "symbols, constants). Literal boundary grid: integers exact or diagnosed, floats bit-equal to the correctly rounded "
+      "double. Exhaustive within the stated tree shapes.",
+      "Trusts the reference operator table R1 (lib/exprgen.py), the harness s-expression renderer and Python float() as "
+      "correctly rounded reference. Small scope: depth <= 3, one representative per operator class.",
+      "bounded-exhaustive tree enumeration on the real parser against a reference operator table (render/parse round trip)",
+      "DESIGN.md §3/C02")
+
 check("C10", "exploration",
       "Every boolean formula tree up to depth 3 over the atom/connective alphabet, as guard and as invariant, is type "
       "checked by the real library and compared with a reference convexity classifier transcribed from the statement; "
